@@ -32,7 +32,8 @@ CORPUS = os.path.join(ROOT, "corpus", "C09_funcs.py")
 SRC = open(CORPUS).read()
 MODNAME = "C09_funcs"
 FUNCS = ("straight", "branch", "chain", "loop", "forloop", "calls", "attrs", "alias", "methods", "subs", "dicts",
-         "unpack", "guard", "nested", "breaks", "globs", "augm", "boolop", "recur", "whileif")
+         "unpack", "guard", "nested", "breaks", "globs", "augm", "boolop", "recur", "whileif", "tuples", "nonecheck",
+         "whilebreak", "condcall", "globwrite", "listalias", "chaincmp")
 METRICS = (config.CoverageMetric.BRANCH, config.CoverageMetric.LINE, config.CoverageMetric.CHECKED)
 CRITERION_NAMES = ("RETURN_VALUE", "RETURN_CONST", "STORE_FAST", "STORE_GLOBAL", "STORE_ATTR", "STORE_SUBSCR",
                    "POP_JUMP_IF_FALSE", "POP_JUMP_IF_TRUE", "POP_JUMP_IF_NONE", "POP_JUMP_IF_NOT_NONE", "FOR_ITER")
@@ -58,7 +59,23 @@ def untraced(fn, *args):
         return fn(*args)
     args = deep_realize(args)
     with NoTracing():
-        return fn(*args)
+        # CrossHair (3.12) keeps a global sys.monitoring INSTRUCTION event set on its tool id even while its tracer is
+        # paused, which slows every concrete instruction down ~6x; switch the event set off for the concrete tail.
+        mon = sys.monitoring
+        try:
+            from crosshair.tracers import SYS_MONITORING_TOOL_ID as tid
+
+            old = mon.get_events(tid)
+        except Exception:  # noqa: BLE001
+            tid, old = None, 0
+        if tid is not None and old:
+            mon.set_events(tid, 0)
+        try:
+            return fn(*args)
+        finally:
+            if tid is not None and old:
+                mon.set_events(tid, old)
+                mon.restart_events()
 
 
 # ====================================================================== original module (ground truth)
